@@ -50,11 +50,11 @@ class Choice(Model):
 
     @cached_property
     def defines_single(self) -> list[str]:
-        return list(set().union(*(o.defines_single for o in self.options)))
+        return sorted(set().union(*(o.defines_single for o in self.options)))
 
     @cached_property
     def defines_list(self) -> list[str]:
-        return list(set().union(*(o.defines_list for o in self.options)))
+        return sorted(set().union(*(o.defines_list for o in self.options)))
 
     def missing_rules(self, rulenames: set[str]) -> set[str]:
         return set().union(*[o.missing_rules(rulenames) for o in self.options])
